@@ -29,7 +29,7 @@ ASSUMPTIONS = [
     "a peer FIN is not a write fault; a write into a transport the client is closing is one: sends are not placed at the very instant the FIN is delivered, and a message accepted while a close is still in progress (slow close under flow control) is not judged here",
     "messages whose lifetime ends within 0.1 s of the next connection are not judged (C02/C16 cover expiry)",
 ]
-PROBES = ["c01.accepted_while_down", "c01.same_instant_sends", "c01.packet_id_wrapped", "c01.outage", "c01.stall", "c01.send_at_establish"]
+PROBES = ["c01.accepted_while_closing", "c01.accepted_while_down", "c01.same_instant_sends", "c01.packet_id_wrapped", "c01.outage", "c01.stall", "c01.send_at_establish"]
 
 
 def budget(tier: str) -> int:
@@ -119,7 +119,21 @@ def generate(rng, index: int, tier: str) -> dict:
         tl.append({"at": t_open, "op": "net.stall_next", "duration": dur})
         for d in spare[: rng.choice([1, 2, 3])]:
             tl.append({"at": T1 + G.dyadic(rng, 0.0, dur), "op": "user.send", "msg": d, "policy": rng.choice(["idem", "nonidem"]), "yields": rng.choice([0, 1, 3])})
-    if rng.random() < 0.2 and not big:
+    if rng.random() < 0.2 and not big and not outage:
+        # a reset that takes time: a send is held by flow control, the peer closes, the client's close of the old transport
+        # has to wait for the unflushed bytes - and more messages are accepted while it waits.  No write fault anywhere.
+        t_x = T1 + G.dyadic(rng, 1.0, 2.5)
+        extra = sendq.distinct_messages(rng, gen, n_msgs + 8)[-4:]
+        if all(x.get("msg") not in extra for x in tl):
+            tl.append({"at": t_x, "op": "net.stall", "on": True})
+            tl.append({"at": t_x + G.EPS, "op": "user.send", "msg": extra[0], "policy": "idem"})
+            tl.append({"at": t_x + 0.0625, "op": rng.choice(["net.fin", "net.fin", "console.raw"]), "hex": "00" * 24})
+            for i, d in enumerate(extra[1: rng.choice([2, 3, 4])]):
+                tl.append({"at": t_x + 0.125 + i * 0.03125, "op": "user.send", "msg": d, "policy": rng.choice(["idem", "nonidem"]), "yields": rng.choice([0, 1])})
+            tl.append({"at": t_x + 0.25, "op": "net.stall", "on": False})
+            fates.append({"kind": "accept", "latency": rng.choice([0.0, 0.125])})
+            t_end = max(t_end, t_x + 3.0)
+    elif rng.random() < 0.2 and not big:
         ts = G.pick_time(rng, T1, t_end - 1.0, anchors=anchors)
         tl.append({"at": ts, "op": "net.stall", "on": True})
         tl.append({"at": ts + rng.choice([G.TICK, 0.125, 0.5]), "op": "net.stall", "on": False})
@@ -178,6 +192,7 @@ def judge(w: World, sc: dict, *, socket_level: bool = True):
             closing[f["link"]][1] = t
     closing = [(a, b if b is not None else 1e18) for (a, b) in closing.values()]
     order = []
+    call_by_id = {c["id"]: c for c in w.calls}
     for s in h.subs:
         if s["exc"] is not None:
             if s["tx"]:
@@ -188,9 +203,15 @@ def judge(w: World, sc: dict, *, socket_level: bool = True):
         ta = s["t_accept"]
         if any(a <= ta <= b for (a, b) in closing):
             probes["c01.accepted_while_closing"] = 1
-            if s["tx"]:
-                order.append((s["tx"][0]["seq"], s["seq_call"], s["id"]))
-            continue
+            # ... and only if that is what happened: bytes were handed to a transport that swallowed them during this very
+            # call (a message that was merely set aside and then forgotten is still this property's business)
+            c0 = call_by_id.get(s["id"])
+            lo = s["seq_call"] if s["seq_call"] is not None else -1
+            hi = c0["seq_ret"] if c0 is not None and c0["seq_ret"] is not None else 10**12
+            if any(e[2] == "tx.dropped" and lo < e[0] < hi for e in w.trace.events):
+                if s["tx"]:
+                    order.append((s["tx"][0]["seq"], s["seq_call"], s["id"]))
+                continue
         if ta in est_times:
             probes["c01.send_at_establish"] = 1
         connected = any(a <= ta and (b is None or ta < b) for (a, b, _l) in ivs)
